@@ -97,146 +97,18 @@ class C10(Check):
         self.windows(fn, q)
 
     def windows(self, fn, q) -> None:
-        """Per-row branch: symbolic execution of the window arithmetic for three segments.
+        """Per-row branch: the window arithmetic for three segments (mxverif.windows)."""
+        from ..windows import partition_violation, slice_windows
 
-        Recognised shapes: a `for seg in results` loop with running offsets, or a comprehension over
-        `zip(results, <lengths>, <accumulate(lengths)>)`; lists of lengths / cumulative sums are interpreted per position.
-        """
-        import sympy
-
-        L = sympy.symbols("l1 l2 l3", integer=True, positive=True)
-        SEG = object()
-        env: dict[str, object] = {}       # scalar name -> sympy expr | SEG
-        lists: dict[str, object] = {}     # list name -> (k -> sympy expr | SEG)
-
-        def lst(e):
-            """Interpret e as a per-segment list; returns k -> value, or None."""
-            if isinstance(e, ast.Name):
-                if e.id == "results":
-                    return lambda k: SEG
-                return lists.get(e.id)
-            if isinstance(e, ast.Call) and norm(e.func) in ("list", "tuple", "np.array", "np.asarray") and len(e.args) == 1:
-                return lst(e.args[0])
-            if isinstance(e, ast.Call) and norm(e.func).split(".")[-1] in ("accumulate", "cumsum") and len(e.args) == 1 and not e.keywords:
-                inner = lst(e.args[0])
-                if inner is None:
-                    return None
-                return lambda k: sum((inner(j) for j in range(k + 1)), sympy.Integer(0))
-            if isinstance(e, ast.ListComp) and len(e.generators) == 1 and not e.generators[0].ifs and isinstance(e.generators[0].target, ast.Name):
-                src = lst(e.generators[0].iter)
-                if src is None:
-                    return None
-                var = e.generators[0].target.id
-
-                def f(k, e=e, src=src, var=var):
-                    old = env.get(var)
-                    env[var] = src(k)
-                    try:
-                        return ev(e.elt, k)
-                    finally:
-                        if old is None:
-                            env.pop(var, None)
-                        else:
-                            env[var] = old
-                return f
-            # [0, *accumulate(x)]  /  [0] + list(accumulate(x)): exclusive prefix sums
-            if isinstance(e, ast.List) and len(e.elts) == 2 and isinstance(e.elts[0], ast.Constant) and e.elts[0].value == 0 and isinstance(e.elts[1], ast.Starred):
-                inner = lst(e.elts[1].value)
-                return None if inner is None else (lambda k: sympy.Integer(0) if k == 0 else inner(k - 1))
-            if isinstance(e, ast.BinOp) and isinstance(e.op, ast.Add) and norm(e.left) == "[0]":
-                inner = lst(e.right)
-                return None if inner is None else (lambda k: sympy.Integer(0) if k == 0 else inner(k - 1))
-            return None
-
-        def ev(e, k):
-            if isinstance(e, ast.Constant) and isinstance(e.value, int):
-                return sympy.Integer(e.value)
-            if isinstance(e, ast.Name) and e.id in env and env[e.id] is not SEG:
-                return env[e.id]
-            if isinstance(e, ast.Call) and norm(e.func) == "len" and len(e.args) == 1 and isinstance(e.args[0], ast.Name) and env.get(e.args[0].id) is SEG:
-                return L[k]
-            if isinstance(e, ast.Subscript) and isinstance(e.value, ast.Attribute) and e.value.attr == "shape" and isinstance(e.value.value, ast.Name) \
-                    and env.get(e.value.value.id) is SEG and norm(e.slice) == "0":
-                return L[k]
-            if isinstance(e, ast.BinOp) and isinstance(e.op, (ast.Add, ast.Sub, ast.Mult)):
-                a, b = ev(e.left, k), ev(e.right, k)
-                return a + b if isinstance(e.op, ast.Add) else a - b if isinstance(e.op, ast.Sub) else a * b
-            raise AnalysisError(f"window arithmetic: `{norm(e)}` not interpretable")
-
-        def bind(target, it, k) -> bool:
-            """Bind the iteration target(s) for segment k; False if the iterable is not a per-segment sequence."""
-            if isinstance(it, ast.Call) and norm(it.func) == "zip" and isinstance(target, ast.Tuple) and len(target.elts) == len(it.args):
-                return all(bind(t, a, k) for t, a in zip(target.elts, it.args))
-            if isinstance(it, ast.Call) and norm(it.func) == "enumerate" and isinstance(target, ast.Tuple) and len(target.elts) == 2 and len(it.args) == 1:
-                env[norm(target.elts[0])] = sympy.Integer(k)
-                return bind(target.elts[1], it.args[0], k)
-            src = lst(it)
-            if src is None or not isinstance(target, ast.Name):
-                return False
-            env[target.id] = src(k)
-            return True
-
-        body = strip_docstring(fn.body)
-        loop = None
-        comp = None
-        for s in body:
-            if isinstance(s, ast.For):
-                loop = s
-                break
-            cs = [n for n in ast.walk(s) if isinstance(n, ast.ListComp) and any(isinstance(x, ast.Subscript) and isinstance(x.slice, ast.Slice) for x in ast.walk(n.elt))] \
-                if isinstance(s, (ast.Return, ast.Assign)) else []
-            if cs:
-                comp = cs[0]
-                loop = s
-                break
-            if isinstance(s, ast.Assign) and isinstance(s.targets[0], ast.Name):
-                if isinstance(s.value, ast.Constant) and isinstance(s.value.value, int):
-                    env[s.targets[0].id] = sympy.Integer(s.value.value)
-                else:
-                    l_ = lst(s.value)
-                    if l_ is not None:
-                        lists[s.targets[0].id] = l_
-        if loop is None:
-            self.undecided_ob("V1", MOD, q, "row-windows", fn, "per-row loop not recognised")
-            return
-
-        windows = []
         try:
-            for k in range(3):
-                if comp is not None:
-                    if len(comp.generators) != 1 or comp.generators[0].ifs or not bind(comp.generators[0].target, comp.generators[0].iter, k):
-                        raise AnalysisError("per-row comprehension does not iterate the segments in a recognised way")
-                    stmts = [ast.Expr(value=comp.elt)]
-                else:
-                    if not bind(loop.target, loop.iter, k):
-                        raise AnalysisError("per-row loop does not iterate the segments in a recognised way")
-                    stmts = loop.body
-                for s in stmts:
-                    # record slices used on the factor array in this statement (before its own assignment effect)
-                    for n in ast.walk(s):
-                        if isinstance(n, ast.Subscript) and isinstance(n.slice, ast.Slice) and n.slice.lower is not None and n.slice.upper is not None:
-                            windows.append((k, ev(n.slice.lower, k), ev(n.slice.upper, k), n))
-                    if isinstance(s, ast.Assign) and isinstance(s.targets[0], ast.Name):
-                        try:
-                            env[s.targets[0].id] = ev(s.value, k)
-                        except AnalysisError:
-                            pass
-                    elif isinstance(s, ast.AugAssign) and isinstance(s.target, ast.Name) and s.target.id in env:
-                        v = ev(s.value, k)
-                        env[s.target.id] = env[s.target.id] + v if isinstance(s.op, ast.Add) else env[s.target.id] - v
+            windows, loop, L = slice_windows(fn, "results", None)
         except AnalysisError as e:
-            self.undecided_ob("V1", MOD, q, "row-windows", loop, str(e))
+            self.undecided_ob("V1", MOD, q, "row-windows", fn, str(e))
             return
         if len(windows) != 3:
             self.undecided_ob("V1", MOD, q, "row-windows", loop, f"{len(windows)} slice(s) of the factor array found in 3 iterations")
             return
-        bad = None
-        for k, lo, hi, node in windows:
-            want_lo = sum(L[:k])
-            want_hi = sum(L[: k + 1])
-            if sympy.simplify(lo - want_lo) != 0 or sympy.simplify(hi - want_hi) != 0:
-                bad = (k, lo, hi, want_lo, want_hi, node)
-                break
+        bad = partition_violation(windows, L)
         if bad:
             k, lo, hi, wl, wh, node = bad
             self.violated("V1", MOD, q, "row-windows", node,
